@@ -1500,4 +1500,38 @@ theorem LinkInv.run {s : LDb} (h : LinkInv s) (ops : List LOp) (hok : OpsOk s op
     rw [← hs.2]
     exact this
 
+/-- **the chute** `_lx_find_bounds` computes by walking links is, for each level `i ≤ nlvl`, the last node of
+    level `≥ i` among the first `pos` nodes (the database block if none) and the first node of level `≥ i` behind
+    them (0, the database tail, if none); `lx->lower`/`lx->upper` are the level-0 neighbours -/
+theorem LinkInv.findBounds_eq {s : LDb} (h : LinkInv s) (pos nlvl : Nat) :
+    findBounds s (fun x => ((order s).take pos).contains x) nlvl =
+      (⟨(List.range (nlvl + 1)).map fun i => (((order s).take pos).filter fun x => decide (i ≤ lvlOf s x)).getLast?.getD s.blk,
+        (List.range (nlvl + 1)).map fun i => (((order s).drop pos).filter fun x => decide (i ≤ lvlOf s x)).head?.getD 0⟩,
+       ((order s).take pos).getLast?.getD s.blk, ((order s).drop pos).head?.getD 0) := by
+  have hr := h.rep
+  have hL : absList s = (absList s).take pos ++ (absList s).drop pos := (List.take_append_drop _ _).symm
+  have hidsA : (order s).take pos = ids ((absList s).take pos) := by
+    rw [← ids_absList s]; simp [ids]
+  have hnd := hr.nodup
+  rw [hL, ids_append, List.nodup_append] at hnd
+  have hA : ∀ p ∈ (absList s).take pos, ((order s).take pos).contains p.1 = true := by
+    intro p hp; rw [hidsA]; simp only [List.contains_eq_mem, decide_eq_true_eq]; exact mem_ids.2 ⟨p.2, hp⟩
+  have hB : ∀ p ∈ (absList s).drop pos, ((order s).take pos).contains p.1 = false := by
+    intro p hp; rw [hidsA]; simp only [List.contains_eq_mem, decide_eq_false_iff_not]
+    intro hx; exact hnd.2.2 p.1 hx p.1 (mem_ids.2 ⟨p.2, hp⟩) rfl
+  rw [hr.findBounds_eq hL _ hA hB nlvl]
+  have eA : (absList s).take pos = ((order s).take pos).map fun x => (x, lvlOf s x) := by simp [absList]
+  have eB : (absList s).drop pos = ((order s).drop pos).map fun x => (x, lvlOf s x) := by simp [absList]
+  have e1 : ∀ i, lowerAt i s.blk ((absList s).take pos) =
+      (((order s).take pos).filter fun x => decide (i ≤ lvlOf s x)).getLast?.getD s.blk := by
+    intro i; rw [lowerAt_eq_last, eA, ids_map_filter s _ (fun l => decide (i ≤ l))]
+  have e2 : ∀ i, nextAt i ((absList s).drop pos) =
+      (((order s).drop pos).filter fun x => decide (i ≤ lvlOf s x)).head?.getD 0 := by
+    intro i; rw [nextAt_eq_head, eB, ids_map_filter s _ (fun l => decide (i ≤ l))]
+  have f1 : (((order s).take pos).filter fun x => decide (0 ≤ lvlOf s x)) = (order s).take pos :=
+    List.filter_eq_self.2 (fun _ _ => by simp)
+  have f2 : (((order s).drop pos).filter fun x => decide (0 ≤ lvlOf s x)) = (order s).drop pos :=
+    List.filter_eq_self.2 (fun _ _ => by simp)
+  simp only [e1, e2, f1, f2]
+
 end IwModel.KvLinks
